@@ -51,13 +51,17 @@ RuleSafe(env, kind, a) ==
     /\ ~Forbidden(kind, a)
     /\ ~(env = "immutable" /\ MutatorAttr(kind, a))
 
-(* C18: callables are records [id, unsafe, alters, name]; a subclass policy may
-   reject more ("denyname": an overridden is_safe_callable that rejects by name) *)
+(* C18: callables are records [id, unsafe, alters, name, denied] describing THE OBJECT
+   THE TEMPLATE CALLS (its own unsafe_callable / alters_data marks, its name, whether the
+   application put this very object on a deny list) -- not whatever it wraps or is
+   wrapped by.  A subclass policy may reject more: "denyname" = an overridden
+   is_safe_callable that rejects by name, "denyobj" = one that rejects by identity *)
 DeniedNames == {"denied"}
 UnsafeCallable(policy, f) ==
     \/ f.unsafe
     \/ f.alters
     \/ (policy = "denyname" /\ f.name \in DeniedNames)
+    \/ (policy = "denyobj" /\ f.denied)
 
 (* -- OPERATIONAL LAYER: transcription of jinja2/sandbox.py -------------------- *)
 (* _mutable_spec, row by row (as of commit f0317ed, which added intersection_update) *)
